@@ -63,7 +63,8 @@ def run_huge(pid, wdir, violations):
 def replay_fuzz(binpath, path, timeout=30, unit_timeout=10):
     """returns (fails, output, timed_out)"""
     try:
-        r = subprocess.run([binpath, "-timeout=%d" % unit_timeout, "-rss_limit_mb=4096", path], stdout=subprocess.PIPE, stderr=subprocess.STDOUT, env=sanitizer_env(), timeout=timeout, text=True, errors="replace")
+        os.makedirs(WORK, exist_ok=True)
+        r = subprocess.run([binpath, "-timeout=%d" % unit_timeout, "-rss_limit_mb=4096", "-artifact_prefix=%s/replay-" % WORK, path], stdout=subprocess.PIPE, stderr=subprocess.STDOUT, env=sanitizer_env(), timeout=timeout, text=True, errors="replace")
     except subprocess.TimeoutExpired:
         return True, "replay did not terminate within %ds" % timeout, True
     hung = "libFuzzer: timeout" in r.stdout
